@@ -124,6 +124,7 @@ def check(model: Model, run: Run) -> None:
         rs = recv_summaries(ex, rq, kind, rv, pre)
         if not ss or not rs:
             run.ob("M1-mirror-agreement", False, {"pair": label, "send_paths": len(ss), "recv_paths": len(rs)})
+            npairs += 1
             run.fail(Finding("M1-mirror-agreement", f"{sq}|{rq}", f"{label}|no-paths send={len(ss)} recv={len(rs)}",
                              f"{label}: no successful path found on the {'sending' if not ss else 'receiving'} side (one side can never handle this message)", ""))
             continue
